@@ -1,4 +1,5 @@
 import KoordVerif.Model.C09
+import KoordVerif.Model.C09Plugin
 import KoordVerif.Generated.C09
 /-
 Tie lemmas: the priority bands / default values the model's class resolution uses are those of
@@ -25,5 +26,34 @@ theorem tie_no_metric_branch_node :
 
 theorem tie_no_metric_branch_zone :
     "podsHPZoneUsed" ∈ C09.noMetricAssigns_calculateOnNUMALevel ∧ "podsHPZoneMaxUsedReq" ∈ C09.noMetricAssigns_calculateOnNUMALevel := by decide
+
+/-! extension: plugin glue -/
+
+/-- getPercentFromStrategy falls back to sloconfig.DefaultColocationStrategy; `stdMidDefaults` are those values. -/
+theorem tie_mid_defaults :
+    stdMidDefaults = { cpuThr := C09.defaultMidCPUThresholdPercent, memThr := C09.defaultMidMemoryThresholdPercent,
+                       cpuRes := C09.defaultMidStaticCPUReservedPercent, memRes := C09.defaultMidStaticMemoryReservedPercent,
+                       unalloc := C09.defaultMidUnallocatedPercent } := by decide
+
+/-- each plugin owns exactly the two resources `Pub` gives it (cpu first). -/
+theorem tie_resource_names :
+    C09.batchResourceNames = ["BatchCPU", "BatchMemory"] ∧ C09.midResourceNames = ["MidCPU", "MidMemory"] := by decide
+
+/-- `isHP` skips exactly batch and free; `isProdForMid` skips exactly mid, batch and free. -/
+theorem tie_low_priorities :
+    C09.batchLowPriorities = ["PriorityBatch", "PriorityFree"] ∧
+    C09.midLowPriorities = ["PriorityBatch", "PriorityFree", "PriorityMid"] ∧
+    (∀ p : Prio, isHP p = !(p == .batch || p == .free)) ∧
+    (∀ p : Prio, isProdForMid p = !(p == .mid || p == .batch || p == .free)) := by
+  refine ⟨by decide, by decide, ?_, ?_⟩ <;> intro p <;> cases p <;> rfl
+
+/-- strict comparisons: IsQuantityDiff `>`, isCommonNodeNeedSync `>`, degrade by `now.After(update + limit)` in both plugins
+    (`DiffOps.diffGt`, `commonNeedSync`, `isDegradeNeeded` are strict in the same places). -/
+theorem tie_strict_comparisons :
+    C09.quantityDiffOp = ">" ∧ C09.commonNeedSyncOp = ">" ∧
+    C09.batchDegradeTimeCmp = ["After"] ∧ C09.midDegradeTimeCmp = ["After"] := by decide
+
+/-- PrepareNodeForResource removes the resource exactly when the quantity is nil or the item is Reset (`prepareRes`). -/
+theorem tie_prepare_delete_cond : C09.prepareDeleteCond = "q==nil||Resets" := by decide
 
 end KoordVerif.C09
